@@ -106,6 +106,7 @@ type FuncCtx struct {
 	rfamCache      []famInst
 	arrViewSrc     map[string]arrViewInfo
 	iteSplitDepth  int
+	ownFamN        int
 	recInfos       map[*SpecFunc]*recInfo
 	recBuilding    *recInfo
 	recSeen        map[string]bool
